@@ -16,6 +16,7 @@
 import Driver.Common
 import Driver.TypeCheckCodec
 import Driver.C08Keys
+import Driver.C08Bounds
 import Parsley.Spec.TypeCheckFrag
 import Parsley.Spec.TypeCheckWF
 namespace Driver.C08
@@ -97,6 +98,9 @@ def gen (seed n : Nat) (tier : String) (emit : String → IO Unit) : IO Unit := 
   genNamedKinds "c08" seed emit
   -- key requirement x entry check kind x key state, dictionaries and streams of 1..3 entries, wildcard entries
   C08Keys.genKeys "c08" (tier == "thorough") emit
+  -- boundary values of every numeric parameter (array size 0/1/../large, 0..4 positional checks, 0 entries / only a
+  -- wildcard entry, 1..4 options, 0..3 choice values) x objects at and around the boundary x every position
+  C08Bounds.genBounds "c08" (tier == "thorough") emit
   let mut r := Rng.mk' seed
   for _ in List.range n do
     let (l, r') := genCase "c08" r
@@ -112,6 +116,10 @@ def gen (seed n : Nat) (tier : String) (emit : String → IO Unit) : IO Unit := 
     emit l
   for _ in List.range (n / 5) do
     let (l, r') := C08Keys.genKeysRandom "c08" r
+    r := r'
+    emit l
+  for _ in List.range (n / 5) do
+    let (l, r') := C08Bounds.genBoundsRandom "c08" r
     r := r'
     emit l
 
